@@ -32,6 +32,18 @@ META = {
 KNOWN_EXTCALL_KEY = "extcall-calldata-length-is-size-bound"
 
 
+def report(ctx, kind, name, detail, dkey, key=None, per_key=1, cap=8):
+    """ctx.violation with de-duplication: at most per_key reports per dkey and cap reports in total
+    (the first instances carry the replay; counts go to the evidence)."""
+    seen = ctx.__dict__.setdefault("_dedupe", {})
+    seen[dkey] = seen.get(dkey, 0) + 1
+    ctx.corr.setdefault("suppressed_duplicate_reports", 0)
+    if seen[dkey] > per_key or (len(ctx.violations) >= cap and key is None):
+        ctx.corr["suppressed_duplicate_reports"] += 1
+        return
+    ctx.violation(kind, name, detail, key=key)
+
+
 def cfg_by_name(name):
     for c in C.quick_configs() + C.thorough_configs() + C.core_configs():
         if c.name == name:
@@ -98,8 +110,11 @@ def part_spec_validation(ctx, pairs):
     encs = A.coq_hex_batch([f"enc {A.coq_ty(t)} {A.coq_val(t, v)}" for k, t, v in meta if k == "val"], "c06enc")
     n = 0
     ei = 0
+    # the compiler's own ABIType objects, obtained through the front end (ties the vyper-type -> ABI-type map too)
+    tlist = [t for t, _ in pairs]
+    real_of = {t: vt.abi_type for t, vt in zip(tlist, A.front_end_types(tlist))}
     for (kind, t, v), o in zip(meta, outs):
-        rt = A.real_abi_type(t)
+        rt = real_of[t]
         if kind == "sizes":
             real = [rt.size_bound(), rt.static_size(), int(rt.is_dynamic()), rt.embedded_static_size(),
                     rt.embedded_dynamic_size_bound()]
@@ -107,28 +122,27 @@ def part_spec_validation(ctx, pairs):
             if o[:5] != real:
                 ctx.pending.append(("sizes-spec", t, o[:5], real))
             if have_gen and o[5:] != real:
-                ctx.violation("correspondence-broken", "abi_types mini-translator output disagrees with real ABIType",
-                              {"type": A.eth_ty(t), "translated": o[5:], "real": real})
+                report(ctx, "correspondence-broken", "abi_types mini-translator output disagrees with real ABIType",
+                       {"type": A.eth_ty(t), "translated": o[5:], "real": real}, "translator")
             continue
         e = encs[ei]
         ei += 1
         n += 1
         if o[0] != 1 or o[1] != 1 or o[2] != len(e):
-            ctx.violation("correspondence-broken", "generator produced ill-typed value or model roundtrip failed",
-                          {"type": A.eth_ty(t), "value": repr(v), "flags": o})
+            report(ctx, "correspondence-broken", "generator produced ill-typed value or model roundtrip failed",
+                   {"type": A.eth_ty(t), "value": repr(v), "flags": o}, "illtyped")
         ref = eth_abi.encode([A.eth_ty(t)], [A.eth_val(t, v)])
         # eth_abi.encode([T],[v]) is enc((T,)) ; compare with spec on the 1-tuple
         ctx.spec_cmp.append((t, v, ref))
         if len(e) > rt.size_bound():
-            ctx.violation("failing-input", "abi_types.size_bound() smaller than a canonical encoding",
-                          {"call": f"vyper.abi_types: {rt!r}.size_bound()", "size_bound": rt.size_bound(),
-                           "value": repr(v), "canonical_encoding_len": len(e), "type": A.eth_ty(t)},
-                          key=None)
+            report(ctx, "failing-input", "abi_types.size_bound() smaller than a canonical encoding",
+                   {"call": f"vyper.abi_types: {rt!r}.size_bound()", "size_bound": rt.size_bound(),
+                    "value": repr(v), "canonical_encoding_len": len(e), "type": A.eth_ty(t)}, "size_bound", per_key=2)
             ctx.size_bound_failing = True
         if not rt.is_dynamic() and len(e) != rt.static_size():
-            ctx.violation("failing-input", "abi_types.static_size() differs from the canonical encoding length of a static type",
-                          {"call": f"vyper.abi_types: {rt!r}.static_size()", "static_size": rt.static_size(),
-                           "canonical_encoding_len": len(e), "type": A.eth_ty(t)})
+            report(ctx, "failing-input", "abi_types.static_size() differs from the canonical encoding length of a static type",
+                   {"call": f"vyper.abi_types: {rt!r}.static_size()", "static_size": rt.static_size(),
+                    "canonical_encoding_len": len(e), "type": A.eth_ty(t)}, "static_size", per_key=2)
             ctx.size_bound_failing = True
     return n
 
@@ -190,8 +204,8 @@ def part_exits(ctx, pairs, cfgs, per_type_cfgs):
         n += res["n"]
         dist[cfg.name] = dist.get(cfg.name, 0) + res["n"]
         if res["error"]:
-            ctx.violation("correspondence-broken", f"exit harness could not run: {res['error'][:200]}",
-                          {"type": A.eth_ty(t), "config": cfg.name, "error": res["error"], "source": src})
+            report(ctx, "correspondence-broken", f"exit harness could not run: {res['error'][:200]}",
+                   {"type": A.eth_ty(t), "config": cfg.name, "error": res["error"], "source": src}, "exit-harness-error")
             continue
         for m in res["mismatch"]:
             v = vals[m["case"]]
@@ -212,9 +226,8 @@ def part_exits(ctx, pairs, cfgs, per_type_cfgs):
                                   "(length = 4 + size_bound; trailing bytes are prior memory contents)", detail,
                                   key=KNOWN_EXTCALL_KEY)
                 continue
-            ctx.violation("failing-input", f"{m['exit']}: emitted bytes differ from canonical ABI encoding", detail)
-            if len(ctx.violations) > 12:
-                return n, wrapped
+            report(ctx, "failing-input", f"{m['exit']}: emitted bytes differ from canonical ABI encoding", detail,
+                   "exit:" + m["exit"])
     ctx.corr["exit_config_distribution"] = dist
     ctx.corr["extcall_trailing_bytes_instances"] = known_reported
     return n, wrapped
@@ -248,15 +261,13 @@ def part_reasons(ctx, cfgs):
     for (nb, cases, src, cfg), res in zip(jm, results):
         n += res["n"]
         if res["error"]:
-            ctx.violation("correspondence-broken", f"reason harness could not run: {res['error'][:200]}",
-                          {"config": cfg.name, "error": res["error"], "source": src})
+            report(ctx, "correspondence-broken", f"reason harness could not run: {res['error'][:200]}",
+                   {"config": cfg.name, "error": res["error"], "source": src}, "reason-harness-error")
             continue
         for m in res["mismatch"]:
-            ctx.violation("failing-input", f"{m['exit']}: revert payload differs from Error(string) canonical encoding",
-                          {"source": src, "config": cfg.name, "exit": m["exit"], "reason": repr(cases[m["case"]][2]),
-                           "expected_canonical": m["expected"], "observed": m["observed"]})
-            if len(ctx.violations) > 12:
-                return n
+            report(ctx, "failing-input", f"{m['exit']}: revert payload differs from Error(string) canonical encoding",
+                   {"source": src, "config": cfg.name, "exit": m["exit"], "reason": repr(cases[m["case"]][2]),
+                    "expected_canonical": m["expected"], "observed": m["observed"]}, "reason:" + m["exit"])
     return n
 
 
@@ -306,7 +317,11 @@ def run(ctx):
     static = ["C06/Abi.v", "C06/AbiLemmas.v", "C06/Roundtrip.v", "C06/ZeroPad.v"]
     b = {"ok": False, "file": "C06/GenAbiSizes.v", "failed_lemma": None, "out": gen_err}
     if gen_err is None:
-        b = ctx.coq_build(static + ["C06/GenAbiSizes.v", "C06/SizesTie.v", "C06/PropsC06.v"])
+        # static files are shared with C05/C12/C19 (coq/STATIC): rebuilt only when stale, so that a concurrently
+        # running check never sees a half-written .vo; the Gen-dependent files are rebuilt on every run
+        b = ctx.coq_build(static, force=False)
+        if b["ok"]:
+            b = ctx.coq_build(["C06/GenAbiSizes.v", "C06/SizesTie.v", "C06/PropsC06.v"])
     # ---- 2. generated pairs; spec validation; real ABIType correspondence
     pairs = make_pairs(ctx, 30 if quick else 150, 3 if quick else 4)
     n_spec = part_spec_validation(ctx, pairs)
